@@ -137,6 +137,10 @@ def range_get_rules(ctx, prog, rid):
                         sk = [c for c in g.calls() if c.callee_qp == 'lseek']
                         good = len(rd) == 1 and len(sk) == 1 and gc.dominates(gc.vertex_of(sk[0]), gc.vertex_of(rd[0])) and \
                             gc.dominates(gc.vertex_of(rd[0]), gc.vertex_of(cb))
+                        if good and steps:
+                            # ... for EVERY record: the seek is repeated after the iterator moved (no path from the step to the read without it)
+                            stv = gc.vertex_of(steps[0])
+                            good = gc.path(stv, lambda v, _r=gc.vertex_of(rd[0]): v == _r, avoid={gc.vertex_of(sk[0])}) is None
                         if good:
                             buf = rd[0].args[1].strip(casts=True)
                             sz = rd[0].args[2]
